@@ -363,3 +363,64 @@ func IntGe(name string, k int64) *Cond {
 func XPathConst(b bool) *Cond {
 	return &Cond{Src: fmt.Sprintf("%v()", b), Lang: "xpath", Eval: func(map[string]any) bool { return b }}
 }
+
+// Set is a definitions document with several processes (process sets, C18): executable
+// processes, waiting (non-executable) ones, and message flows from throw events to start or
+// catch events.
+type Set struct {
+	ID           string
+	Procs        []*Graph
+	Waiting      map[string]bool // graph id -> isExecutable="false"
+	MessageFlows [][2]string     // source node id, target node id
+}
+
+// XML renders the set.
+func (s *Set) XML() string {
+	var b strings.Builder
+	b.WriteString("<?xml version=\"1.0\" encoding=\"UTF-8\"?>\n")
+	fmt.Fprintf(&b, "<bpmn:definitions xmlns:bpmn=\"http://www.omg.org/spec/BPMN/20100524/MODEL\" xmlns:xsi=\"http://www.w3.org/2001/XMLSchema-instance\" xmlns:olive=\"http://olive.io/spec/BPMN/MODEL\" id=\"defs_%s\" targetNamespace=\"http://bpmn.io/schema/bpmn\" expressionLanguage=\"%s\">\n", s.ID, ExprLang)
+	if len(s.MessageFlows) > 0 {
+		fmt.Fprintf(&b, "  <bpmn:collaboration id=\"collab_%s\">\n", s.ID)
+		for i, g := range s.Procs {
+			fmt.Fprintf(&b, "    <bpmn:participant id=\"part%d\" processRef=\"%s\"/>\n", i, g.ID)
+		}
+		for i, mf := range s.MessageFlows {
+			fmt.Fprintf(&b, "    <bpmn:messageFlow id=\"mf%d\" sourceRef=\"%s\" targetRef=\"%s\"/>\n", i, mf[0], mf[1])
+		}
+		b.WriteString("  </bpmn:collaboration>\n")
+	}
+	sig, msg := map[string]bool{}, map[string]bool{}
+	for _, g := range s.Procs {
+		fmt.Fprintf(&b, "  <bpmn:process id=\"%s\" isExecutable=\"%v\">\n", g.ID, !s.Waiting[g.ID])
+		g.writeBody(&b, "    ")
+		b.WriteString("  </bpmn:process>\n")
+		g.signals(sig, msg)
+	}
+	var ks []string
+	for k := range sig {
+		ks = append(ks, k)
+	}
+	sort.Strings(ks)
+	for _, k := range ks {
+		fmt.Fprintf(&b, "  <bpmn:signal id=\"%s\" name=\"%s\"/>\n", esc(k), esc(k))
+	}
+	ks = nil
+	for k := range msg {
+		ks = append(ks, k)
+	}
+	sort.Strings(ks)
+	for _, k := range ks {
+		fmt.Fprintf(&b, "  <bpmn:message id=\"%s\" name=\"%s\"/>\n", esc(k), esc(k))
+	}
+	b.WriteString("</bpmn:definitions>\n")
+	return b.String()
+}
+
+// Parse renders and parses the set.
+func (s *Set) Parse() *schema.Definitions {
+	defs, err := schema.Parse([]byte(s.XML()))
+	if err != nil {
+		panic(fmt.Sprintf("generated XML does not parse: %v\n%s", err, s.XML()))
+	}
+	return defs
+}
